@@ -142,7 +142,9 @@ def replay_case(ctx: vf.Ctx, data, want, classify, quiet=False):
         f = dict(kind='coq_views', step=0, call=call, symptoms=coq_view_diff(c), pre=pre)
     elif 'order' in want and out.kind != 'E':
         try:
-            if call[0] in cr.SPEC and not cc.grouped_ok(cc.ref_apply(pre, call), post):
+            if call[0] == 'fold' and cc.region_verdict(pre, call[1]) != 'ok':
+                f = dict(kind='fold_accepted_invalid_region', step=0, call=call, pre=pre, post=post, detail=cc.region_verdict(pre, call[1]))
+            elif call[0] in cr.SPEC and not cc.grouped_ok(cc.ref_apply(pre, call), post):
                 f = dict(kind='order', step=0, call=call, pre=pre, post=post)
             elif (call[0] in cr.STRUCT_ONLY or call[0] == 'unfold') and cc.UTL(pre) != cc.UTL(post):
                 f = dict(kind='structure_only_changed_program', step=0, call=call, pre=pre, post=post)
